@@ -291,6 +291,7 @@ func (e *Engine) verifyFuncMode(fn *ssa.Function, cfg SolverCfg, mode string) *F
 		}
 	}
 	res.Vacuous = e.checkReach(vc, cfg, base, proved)
+	res.Notes = append([]string{}, vc.notes...)
 	res.Seconds = time.Since(t0).Seconds()
 	if os.Getenv("GOVC_KEEP") == "" {
 		os.Remove(file)
@@ -419,7 +420,9 @@ func (e *Engine) checkReach(vc *VC, cfg SolverCfg, base string, proved map[*Obli
 			continue
 		}
 		if st == "unsat" {
-			vac = append(vac, qq.name)
+			// a loop or call site in dead code (a type-switch arm of a generic instance, a branch on a constant
+			// build-configuration flag) is legitimate: reported as a note, not as a violation
+			vc.note("unreachable program point under the collected hypotheses: %s", qq.name)
 		}
 	}
 	if rets > 0 && deadRets == rets && !trivialReturn {
